@@ -150,4 +150,85 @@ theorem respond_sends (s : MsgLayer.State) (sv : Nat) (m : OutMsg) (il : Bool) (
     dsimp only
     split <;> exact fun o ho => ⟨i, hi, hsv, this o ho⟩
 
+
+theorem execAct_incoming_sub (c : State) (sv : Nat) (a : Act) :
+    ∀ i ∈ (execAct c sv a).1.ml.incoming, i ∈ c.ml.incoming := by
+  cases a with
+  | emit code obs body il =>
+    intro i hi
+    have := (respond_frame c.ml sv (mkMsg c code obs body) il).2.2
+    simp only [execAct] at hi
+    rw [this] at hi
+    split at hi
+    · exact (List.mem_filter.mp hi).1
+    · exact hi
+  | _ => intro i hi; exact hi
+
+/-- every datagram sent while the task of pipe `sv` runs is one of its responses, sent to the remote
+and with the token recorded for the pipe -/
+theorem exec_sends (sv : Nat) (I : List InReq) (acts : List Act) : ∀ c0 : State,
+    (∀ i ∈ c0.ml.incoming, i ∈ I) →
+    ∀ tm r w, Out.net (.send tm r w) ∈ (exec c0 sv acts).2 →
+      ∃ i ∈ I, i.srv = sv ∧ r = i.remote ∧ w.token = i.token ∧
+        ∃ il, Act.emit w.code w.obs w.body il ∈ acts := by
+  induction acts with
+  | nil => intro c0 _ tm r w ho; cases ho
+  | cons a as ih =>
+    intro c0 hsub tm r w ho
+    simp only [exec] at ho
+    rcases List.mem_append.mp ho with ho | ho
+    · cases a with
+      | emit code obs body il =>
+        simp only [execAct, List.mem_append, List.mem_map, List.mem_singleton] at ho
+        rcases ho with ⟨x, hx, he⟩ | he
+        · cases he
+          obtain ⟨i, hi, hsv, tm', w', hxe, h1, h2, h3, h4⟩ :=
+            respond_sends c0.ml sv (mkMsg c0 code obs body) il rfl _ hx
+          cases hxe
+          refine ⟨i, hsub i hi, hsv, rfl, h1, il, ?_⟩
+          rw [h2, h3, h4]; exact List.mem_cons_self
+        · cases he
+      | accept => simp [execAct] at ho
+      | callback => simp [execAct] at ho
+      | render v => simp [execAct] at ho
+    · obtain ⟨i, hi, h1, h2, h3, il, h4⟩ := ih (execAct c0 sv a).1
+        (fun i hi => hsub i (execAct_incoming_sub c0 sv a i hi)) tm r w ho
+      exact ⟨i, hi, h1, h2, h3, il, List.mem_cons_of_mem _ h4⟩
+
+theorem exec_notify_mem (sv : Nat) (acts : List Act) : ∀ c0 : State, ∀ code obs body il,
+    Act.emit code obs body il ∈ acts → Out.notify sv code obs body il ∈ (exec c0 sv acts).2 := by
+  induction acts with
+  | nil => intro c0 code obs body il h; cases h
+  | cons a as ih =>
+    intro c0 code obs body il h
+    simp only [exec]
+    rcases List.mem_cons.mp h with rfl | h
+    · exact List.mem_append_left _ (by simp [execAct])
+    · exact List.mem_append_right _ (ih _ _ _ _ _ h)
+
+
+theorem exec_notify_inv (sv : Nat) (acts : List Act) : ∀ c0 : State, ∀ sv' code obs body il,
+    Out.notify sv' code obs body il ∈ (exec c0 sv acts).2 → Act.emit code obs body il ∈ acts := by
+  induction acts with
+  | nil => intro c0 sv' code obs body il h; cases h
+  | cons a as ih =>
+    intro c0 sv' code obs body il h
+    simp only [exec] at h
+    rcases List.mem_append.mp h with h | h
+    · cases a with
+      | emit code' obs' body' il' =>
+        simp only [execAct, List.mem_append, List.mem_map, List.mem_singleton] at h
+        rcases h with ⟨x, _, hx⟩ | hx
+        · cases hx
+        · cases hx; exact List.mem_cons_self
+      | accept => simp [execAct] at h
+      | callback => simp [execAct] at h
+      | render v => simp [execAct] at h
+    · exact List.mem_cons_of_mem _ (ih _ _ _ _ _ _ h)
+
+theorem hasLast_of_mem {acts : List Act} {code : Nat} {obs : Option Nat} {body : Nat}
+    (h : Act.emit code obs body true ∈ acts) : hasLast acts = true := by
+  simp only [hasLast, List.any_eq_true]
+  exact ⟨_, h, rfl⟩
+
 end Aiocoap.Observe.Server
